@@ -53,6 +53,12 @@ def corpus_docs(tier):
         ("l", (rec(1, "x"),)), ("l", (rec(1, "x"), rec(2, "y"))),
         ("l", (rec(2, "y"), rec(1, "x"))), ("l", (rec(1, "x"), rec(2, "z"))),
         ("l", (rec(1, "x"), rec(1, "x"))),
+        # records sharing an identity-key value but differing elsewhere
+        ("l", (rec(1, "x"), rec(1, "y"))),
+        ("l", (rec(1, "x"), rec(2, "y"), rec(1, "z"))),
+        ("l", (rec(1, "x"), rec(1, "y"), rec(1, "z"))),
+        ("m", (("a", ("l", (rec(1, "x"), rec(2, "y"), rec(1, "z"),
+                            rec(2, "w")))),)),
         ("l", (("m", (("n", 1),)),)),
         ("m", (("a", ("l", (rec(1, "x"), rec(2, "y")))),)),
         ("m", (("a", ("l", (1, 2))), ("b", ("l", ())))),
